@@ -173,7 +173,7 @@ def gen_plan(rng, profile: dict, seed: int) -> dict:
         "spatial": list(spatial),
         "spec": spec,
         "past": past,
-        "n": rng.randint(1, 8),
+        "n": rng.choice(list(range(1, 9)) * 3 + [10, 11, 12, 16]),  # a minority of long rollouts (a different code path may take over beyond some length)
         "cross": cross,
         "model_mode": model_mode,
         "out_order": [list(t) for t in out_order],
